@@ -39,8 +39,8 @@ func CheckShift(w *core.Worker, c *Case, shifted []byte, k int, cuts []int) (def
 	S := c.P.New(c.Cfg)
 	ob, os := 0, k
 	for _, cut := range cuts {
-		nb, eb, panb, _ := safeCall(B, c.Buf[:cut], ob)
-		ns, es, pans, stk := safeCall(S, shifted[:k+cut], os)
+		nb, eb, panb, _ := safeCall(B, s.exactPrefix(c.Buf[:cut]), ob)
+		ns, es, pans, stk := safeCall(S, s.isoPrefix(shifted[:k+cut], cut), os)
 		w.Eval(1)
 		if panb != "" || pans != "" {
 			if panb != "" && pans != "" {
